@@ -373,4 +373,455 @@ theorem visitList_append (V : Mod → List String → List Mod × List String) :
     · exact visitList_append V a b seen
     · simp only [visitList_append V a b, List.append_assoc]
 
+/-! ### the search against the search order -/
+
+/-- The first of the (sub)modules `ms` that declares the name at its top level. -/
+def found (ms : List Mod) (name : String) : Option GroupingRef :=
+  ms.findSome? fun s => (declares s.stmt name).map fun g => (g, s, [s.stmt])
+
+theorem found_nil (name : String) : found [] name = none := rfl
+
+theorem found_cons (m : Mod) (ms : List Mod) (name : String) :
+    found (m :: ms) name =
+      match declares m.stmt name with
+      | some g => some (g, m, [m.stmt])
+      | none => found ms name := by
+  unfold found
+  rw [List.findSome?_cons]
+  cases declares m.stmt name <;> rfl
+
+theorem found_append (a b : List Mod) (name : String) :
+    found (a ++ b) name = match found a name with | some r => some r | none => found b name := by
+  unfold found
+  rw [List.findSome?_append]
+  cases List.findSome? _ a <;> rfl
+
+/-- The search result agrees with the search order: same finding, and when nothing is found the
+same marks. -/
+def Agree (r : Res) (v : List Mod × List String) (name : String) : Prop :=
+  r.1 = found v.1 name ∧ (r.1 = none → r.2 = v.2)
+
+section bare
+variable (reg : Registry) (linked : List Nat) (name : String) (hb : isBare name = true)
+include hb
+
+theorem importHit_bare (fuel : Nat) (i : Stmt) (seen : List String) :
+    importHit reg linked fuel i name seen = (none, seen) := by
+  unfold importHit
+  simp only [carries_iff, bare_not_carries hb, Bool.false_and, Bool.false_eq_true, if_false]
+
+theorem fgImports_bare : ∀ (fuel : Nat) (imps : List Stmt) (seen : List String),
+    fgImports reg linked fuel imps name seen = (none, seen)
+  | 0, _, _ => by simp [fgImports]
+  | fuel + 1, [], seen => fgImports_nil ..
+  | fuel + 1, i :: rest, seen => by
+    rw [fgImports_cons, importHit_bare reg linked name hb, orElse_none]
+    exact fgImports_bare fuel rest seen
+
+theorem localName_bare (root : Mod) : localName root name = name := by
+  unfold localName
+  simp [bare_not_carries hb]
+
+theorem findGrouping_bare (fuel : Nat) (root : Mod) (scope : List Stmt) (seen : List String) :
+    findGrouping reg linked (fuel + 1) root scope name seen = fgScope reg linked fuel root scope name seen := by
+  rw [findGrouping.eq_2, trimLocalPrefix_eq, localName_bare name hb]
+
+
+/-- What the level lemma assumes about the (sub)modules one step down (depth `d`). -/
+def Below (W d : Nat) : Prop :=
+  ∀ (t : Mod) (seen' : List String) (fuel' : Nat), t ∈ reg.mods → unseen reg seen' + 1 ≤ d → d * (W + 3) ≤ fuel' →
+    Agree (fgScope reg linked fuel' t [t.stmt] name seen') (visit reg linked d t seen') name
+
+/-- The include loop against the search order of the included submodules. -/
+theorem includes_agree (W d : Nat) (ih : Below reg linked name W d) :
+    ∀ (incs : List Stmt) (seen : List String) (G : Nat), unseen reg seen ≤ d → incs.length + 2 + d * (W + 3) ≤ G →
+      Agree (fgIncludes reg linked G incs name seen)
+        (visitList (visit reg linked d) (incs.filterMap (reg.findModule true)) seen) name
+  | [], seen, G, _, _ => by
+    rw [fgIncludes_nil]
+    exact ⟨rfl, fun _ => rfl⟩
+  | i :: rest, seen, G, hu, hG => by
+    obtain ⟨g, rfl⟩ : ∃ g, G = g + 1 := ⟨G - 1, by simp at hG; omega⟩
+    simp only [List.length_cons] at hG
+    rw [fgIncludes_cons]
+    unfold includeHit
+    cases hf : reg.findModule true i with
+    | none =>
+      simp only [List.filterMap_cons, hf, orElse_none]
+      exact includes_agree W d ih rest seen g hu (by omega)
+    | some t =>
+      simp only [List.filterMap_cons, hf, visitList_cons]
+      cases hs : seen.contains t.name with
+      | true =>
+        simp only [if_true, orElse_none]
+        exact includes_agree W d ih rest seen g hu (by omega)
+      | false =>
+        simp only [Bool.false_eq_true, if_false]
+        have hlt := unseen_lt (findModule_mem hf) hs
+        obtain ⟨g', rfl⟩ : ∃ g', g = g' + 1 := ⟨g - 1, by omega⟩
+        rw [findGrouping_bare reg linked name hb]
+        have A := ih t (seen ++ [t.name]) g' (findModule_mem hf) (by omega) (by omega)
+        have hsub : seen ⊆ (visit reg linked d t (seen ++ [t.name])).2 :=
+          fun x hx => visit_subset reg linked d t _ (List.mem_append_left _ hx)
+        have hu' : unseen reg (visit reg linked d t (seen ++ [t.name])).2 ≤ d :=
+          Nat.le_trans (unseen_mono hsub) hu
+        have B := includes_agree W d ih rest (visit reg linked d t (seen ++ [t.name])).2 (g' + 1) hu' (by omega)
+        generalize fgScope reg linked g' t [t.stmt] name (seen ++ [t.name]) = r at A
+        obtain ⟨r1, r2⟩ := r
+        cases r1 with
+        | some x =>
+          simp only [orElse]
+          refine ⟨?_, fun h => by cases h⟩
+          rw [found_append, ← A.1]
+        | none =>
+          simp only [orElse_none]
+          have h2 : r2 = (visit reg linked d t (seen ++ [t.name])).2 := A.2 rfl
+          subst h2
+          refine ⟨?_, B.2⟩
+          rw [found_append, ← A.1]
+          exact B.1
+
+
+/-- The owner hop against the search order of the owner. -/
+theorem owner_agree (W d : Nat) (ih : Below reg linked name W d) (m : Mod) (seen : List String) (G : Nat)
+    (hu : unseen reg seen ≤ d) (hG : 1 + d * (W + 3) ≤ G) (c : Bool) :
+    Agree (viaOwner reg linked G m c name seen)
+      (visitList (visit reg linked d)
+        (if c && m.isSub then (m.belongsTo?.bind reg.getModule).toList else []) seen) name := by
+  unfold viaOwner
+  cases hc : (c && m.isSub) with
+  | false => simp only [Bool.false_eq_true, if_false]; exact ⟨rfl, fun _ => rfl⟩
+  | true =>
+    simp only [if_true]
+    cases ho : m.belongsTo?.bind reg.getModule with
+    | none => simp only [Option.toList]; exact ⟨rfl, fun _ => rfl⟩
+    | some t =>
+      simp only [Option.toList, visitList_cons]
+      cases hs : seen.contains t.name with
+      | true => simp only [if_true]; exact ⟨rfl, fun _ => rfl⟩
+      | false =>
+        simp only [Bool.false_eq_true, if_false]
+        have hlt := unseen_lt (owner_mem ho) hs
+        obtain ⟨g', rfl⟩ : ∃ g', G = g' + 1 := ⟨G - 1, by omega⟩
+        rw [findGrouping_bare reg linked name hb]
+        have A := ih t (seen ++ [t.name]) g' (owner_mem ho) (by omega) (by omega)
+        simp only [visitList, List.append_nil]
+        exact A
+
+/-- One level of the search: the (sub)module statement of `m` with everything below it. -/
+theorem level (W d : Nat) (ih : Below reg linked name W d) (m : Mod) (seen : List String) (fuel : Nat)
+    (hW : m.stmt.subs.length ≤ W) (hu : unseen reg seen ≤ d) (hfuel : (d + 1) * (W + 3) ≤ fuel) :
+    Agree (fgScope reg linked fuel m [m.stmt] name seen) (visit reg linked (d + 1) m seen) name := by
+  have hmul : (d + 1) * (W + 3) = d * (W + 3) + (W + 3) := Nat.succ_mul _ _
+  obtain ⟨f, rfl⟩ : ∃ f, fuel = f + 1 := ⟨fuel - 1, by omega⟩
+  rw [fgScope_cons]
+  unfold visit
+  simp only
+  change Agree (match declares m.stmt name with | some g => _ | none => _) _ name
+  cases hd : declares m.stmt name with
+  | some g =>
+    refine ⟨?_, fun h => by cases h⟩
+    simp only [found_cons, hd]
+  | none =>
+    simp only
+    rw [fgImports_bare reg linked name hb, orElse_none]
+    have hbare : (!name.contains ':') = true := by rw [contains_colon, hb]; rfl
+    simp only [hbare, Bool.and_true]
+    -- the two halves of `next`
+    have hnext : next reg linked m =
+        (if isModuleStmt m.stmt && linked.contains m.seq then (m.stmt.all "include").filterMap (reg.findModule true) else []) ++
+        (if isModuleStmt m.stmt && m.isSub then (m.belongsTo?.bind reg.getModule).toList else []) := by
+      unfold next Mod.includes
+      cases isModuleStmt m.stmt <;> cases linked.contains m.seq <;> cases m.isSub <;> simp
+    rw [hnext, visitList_append]
+    have hlen : (m.stmt.all "include").length ≤ W := Nat.le_trans (List.length_filter_le _ _) hW
+    have A : Agree (fgIncludes reg linked f (if isModuleStmt m.stmt && linked.contains m.seq then m.stmt.all "include" else []) name seen)
+        (visitList (visit reg linked d)
+          (if isModuleStmt m.stmt && linked.contains m.seq then (m.stmt.all "include").filterMap (reg.findModule true) else []) seen) name := by
+      cases (isModuleStmt m.stmt && linked.contains m.seq) with
+      | false => simp only [Bool.false_eq_true, if_false]; rw [fgIncludes_nil]; exact ⟨rfl, fun _ => rfl⟩
+      | true =>
+        simp only [if_true]
+        exact includes_agree reg linked name hb W d ih _ seen f hu (by omega)
+    have hsub : seen ⊆ (visitList (visit reg linked d)
+          (if isModuleStmt m.stmt && linked.contains m.seq then (m.stmt.all "include").filterMap (reg.findModule true) else []) seen).2 :=
+      visitList_subset _ (visit_subset reg linked d) _ _
+    generalize fgIncludes reg linked f (if isModuleStmt m.stmt && linked.contains m.seq then m.stmt.all "include" else []) name seen = r at A
+    generalize visitList (visit reg linked d)
+          (if isModuleStmt m.stmt && linked.contains m.seq then (m.stmt.all "include").filterMap (reg.findModule true) else []) seen = v1 at A hsub
+    obtain ⟨r1, r2⟩ := r
+    cases r1 with
+    | some x =>
+      simp only [orElse]
+      refine ⟨?_, fun h => by cases h⟩
+      simp only [found_cons, hd, found_append, ← A.1]
+    | none =>
+      simp only [orElse_none]
+      have h2 : r2 = v1.2 := A.2 rfl
+      subst h2
+      have hu' : unseen reg v1.2 ≤ d := Nat.le_trans (unseen_mono hsub) hu
+      have B := owner_agree reg linked name hb W d ih m v1.2 f hu' (by omega) (isModuleStmt m.stmt)
+      generalize viaOwner reg linked f m (isModuleStmt m.stmt) name v1.2 = r at B
+      generalize visitList (visit reg linked d)
+        (if isModuleStmt m.stmt && m.isSub then (m.belongsTo?.bind reg.getModule).toList else []) v1.2 = v2 at B
+      obtain ⟨r1, r2⟩ := r
+      cases r1 with
+      | some x =>
+        simp only [orElse]
+        refine ⟨?_, fun h => by cases h⟩
+        simp only [found_cons, hd, found_append, ← A.1, ← B.1]
+      | none =>
+        simp only [orElse_none, fgScope_nil]
+        have h2 : r2 = v2.2 := B.2 rfl
+        subst h2
+        refine ⟨?_, fun _ => rfl⟩
+        simp only [found_cons, hd, found_append, ← A.1, ← B.1]
+
+
+/-- The search at the (sub)module statement of `m` agrees with the search order from `m`, for every
+depth bound `d` that covers the unmarked loaded modules and fuel from `(d + 1) * (W + 3)` on. -/
+theorem agree_all (W : Nat) (hWm : ∀ t ∈ reg.mods, t.stmt.subs.length ≤ W) :
+    ∀ (d : Nat) (m : Mod) (seen : List String) (fuel : Nat), m.stmt.subs.length ≤ W → unseen reg seen ≤ d →
+      (d + 1) * (W + 3) ≤ fuel →
+      Agree (fgScope reg linked fuel m [m.stmt] name seen) (visit reg linked (d + 1) m seen) name
+  | 0, m, seen, fuel, hW, hu, hf =>
+    level reg linked name hb W 0 (fun t seen' fuel' _ h _ => by omega) m seen fuel hW hu hf
+  | d + 1, m, seen, fuel, hW, hu, hf =>
+    level reg linked name hb W (d + 1)
+      (fun t seen' fuel' ht h hf' => agree_all W hWm d t seen' fuel' (hWm t ht) (by omega) hf')
+      m seen fuel hW hu hf
+
+/-- Binding at the top level of the whole module of `m`. -/
+theorem fgScope_top (W : Nat) (hWm : ∀ t ∈ reg.mods, t.stmt.subs.length ≤ W) (m : Mod) (hW : m.stmt.subs.length ≤ W)
+    (fuel : Nat) (hf : (reg.mods.length + 1) * (W + 3) ≤ fuel) :
+    (fgScope reg linked fuel m [m.stmt] name []).1 = bindTop reg linked m name :=
+  (agree_all reg linked name hb W hWm reg.mods.length m [] fuel hW (unseen_nil_le reg) hf).1
+
+end bare
+
+
+/-! ### the enclosing statements -/
+
+/-- The walk through the enclosing statements that are not (sub)module statements: only their
+own groupings are looked at, the marks stay as they are. -/
+theorem walk_inner (reg : Registry) (linked : List Nat) (root : Mod) (nm : String) (seen : List String) :
+    ∀ (inner : List Stmt) (fuel : Nat), (∀ n ∈ inner, isModuleStmt n = false) →
+      fgScope reg linked (inner.length + fuel) root (inner ++ [root.stmt]) nm seen =
+        match bindLexical root inner nm with
+        | some r => (some r, seen)
+        | none => fgScope reg linked fuel root [root.stmt] nm seen
+  | [], fuel, _ => by simp [bindLexical]
+  | n :: up, fuel, h => by
+    have hn : isModuleStmt n = false := h n (List.mem_cons_self ..)
+    have e : (n :: up).length + fuel = (up.length + fuel) + 1 := by simp only [List.length_cons]; omega
+    rw [e, List.cons_append, fgScope_cons]
+    unfold bindLexical
+    change (match declares n nm with | some g => _ | none => _) = _
+    cases hd : declares n nm with
+    | some g => rfl
+    | none =>
+      simp only [hn, Bool.false_and, Bool.false_eq_true, if_false, fgImports_nil, fgIncludes_nil, orElse_none]
+      have hv : viaOwner reg linked (up.length + fuel) root false nm seen = (none, seen) := by
+        simp [viaOwner]
+      rw [hv, orElse_none]
+      exact walk_inner reg linked root nm seen up fuel (fun x hx => h x (List.mem_cons_of_mem _ hx))
+
+
+/-! ### fuel -/
+
+/-- Greatest number of substatements of a statement of the list. -/
+def maxSubs : List Stmt → Nat
+  | [] => 0
+  | s :: l => max s.subs.length (maxSubs l)
+
+theorem le_maxSubs {l : List Stmt} {s : Stmt} (h : s ∈ l) : s.subs.length ≤ maxSubs l := by
+  induction l with
+  | nil => cases h
+  | cons a l ih =>
+    unfold maxSubs
+    rcases List.mem_cons.1 h with rfl | h
+    · exact Nat.le_max_left _ _
+    · exact Nat.le_trans (ih h) (Nat.le_max_right _ _)
+
+/-- The greatest number of substatements of the using (sub)module statement and of any loaded
+(sub)module statement. -/
+def width (reg : Registry) (root : Mod) : Nat := maxSubs (root.stmt :: reg.mods.map (·.stmt))
+
+/-- Fuel that is enough for `findGrouping` started below `inner` in `root`: one unit per enclosing
+statement, and per loaded (sub)module (each is entered at most once along a call path) its import
+and include lists plus three. -/
+def bindFuel (reg : Registry) (root : Mod) (inner : List Stmt) : Nat :=
+  inner.length + 1 + (reg.mods.length + 2) * (width reg root + 3)
+
+theorem width_mods (reg : Registry) (root : Mod) : ∀ t ∈ reg.mods, t.stmt.subs.length ≤ width reg root :=
+  fun _ ht => le_maxSubs (List.mem_cons_of_mem _ (List.mem_map_of_mem ht))
+
+theorem width_root (reg : Registry) (root : Mod) : root.stmt.subs.length ≤ width reg root :=
+  le_maxSubs (List.mem_cons_self ..)
+
+/-- **Binding of an unprefixed (or own-prefixed) name.** -/
+theorem findGrouping_local (reg : Registry) (linked : List Nat) (root : Mod) (inner : List Stmt) (name : String)
+    (fuel : Nat) (hinner : ∀ n ∈ inner, isModuleStmt n = false) (hb : isBare (localName root name) = true)
+    (hf : bindFuel reg root inner ≤ fuel) :
+    (findGrouping reg linked fuel root (inner ++ [root.stmt]) name []).1 = bindGrouping reg linked root inner name := by
+  unfold bindFuel at hf
+  have hmul : (reg.mods.length + 2) * (width reg root + 3) =
+      (reg.mods.length + 1) * (width reg root + 3) + (width reg root + 3) := Nat.succ_mul _ _
+  obtain ⟨F, rfl⟩ : ∃ F, fuel = inner.length + F + 1 := ⟨fuel - inner.length - 1, by omega⟩
+  rw [findGrouping.eq_2, trimLocalPrefix_eq, walk_inner reg linked root _ [] inner F hinner]
+  unfold bindGrouping
+  simp only [hb, if_true]
+  cases bindLexical root inner (localName root name) with
+  | some r => rfl
+  | none =>
+    exact fgScope_top reg linked _ hb (width reg root) (width_mods reg root) root (width_root reg root) F (by omega)
+
+
+/-! ### a foreign prefix -/
+
+/-- The import statement `i` is the one the reference `nm` is written with. -/
+def importMatches (nm : String) (i : Stmt) : Bool :=
+  carries ((i.argOf? "prefix").getD "") nm && isBare (afterPrefix ((i.argOf? "prefix").getD "") nm)
+
+theorem importHit_eq (reg : Registry) (linked : List Nat) (fuel : Nat) (i : Stmt) (nm : String) (seen : List String) :
+    importHit reg linked fuel i nm seen =
+      if importMatches nm i then
+        match reg.findModule false i with
+        | some im => findGrouping reg linked fuel im [im.stmt] (afterPrefix ((i.argOf? "prefix").getD "") nm) seen
+        | none => (none, seen)
+      else (none, seen) := by
+  unfold importHit importMatches
+  simp only [carries_iff, afterPrefix_eq, contains_colon, Bool.not_not]
+  rfl
+
+theorem fgImports_inert (reg : Registry) (linked : List Nat) (nm : String) : ∀ (fuel : Nat) (l : List Stmt) (seen : List String),
+    (∀ i ∈ l, importMatches nm i = false) → fgImports reg linked fuel l nm seen = (none, seen)
+  | 0, _, _, _ => by simp [fgImports]
+  | fuel + 1, [], seen, _ => fgImports_nil ..
+  | fuel + 1, i :: rest, seen, h => by
+    rw [fgImports_cons, importHit_eq, h i (List.mem_cons_self ..)]
+    simp only [Bool.false_eq_true, if_false, orElse_none]
+    exact fgImports_inert reg linked nm fuel rest seen (fun x hx => h x (List.mem_cons_of_mem _ hx))
+
+/-- The import loop when at most one import statement carries the reference's prefix. -/
+theorem imports_agree (reg : Registry) (linked : List Nat) (nm : String) (F0 : Nat) (S : Stmt → Option GroupingRef)
+    (seen : List String)
+    (hS : ∀ i g, importMatches nm i = true → F0 ≤ g → (importHit reg linked g i nm seen).1 = S i) :
+    ∀ (l : List Stmt) (G : Nat), l.length + 1 + F0 ≤ G → (l.filter (importMatches nm)).length ≤ 1 →
+      (fgImports reg linked G l nm seen).1 = l.findSome? fun i => if importMatches nm i then S i else none
+  | [], G, _, _ => by rw [fgImports_nil]; rfl
+  | i :: rest, G, hG, hu => by
+    obtain ⟨g, rfl⟩ : ∃ g, G = g + 1 := ⟨G - 1, by simp at hG; omega⟩
+    simp only [List.length_cons] at hG
+    rw [fgImports_cons, List.findSome?_cons]
+    cases hm : importMatches nm i with
+    | false =>
+      rw [importHit_eq, hm]
+      simp only [Bool.false_eq_true, if_false, orElse_none]
+      refine imports_agree reg linked nm F0 S seen hS rest g (by omega) ?_
+      simpa [List.filter_cons, hm] using hu
+    | true =>
+      simp only [if_true]
+      have hrest : ∀ x ∈ rest, importMatches nm x = false := by
+        intro x hx
+        cases hx' : importMatches nm x with
+        | false => rfl
+        | true =>
+          have : x ∈ rest.filter (importMatches nm) := List.mem_filter.2 ⟨hx, hx'⟩
+          have hpos := List.length_pos_of_mem this
+          rw [List.filter_cons_of_pos hm, List.length_cons] at hu
+          omega
+      have hhit := hS i g hm (by omega)
+      generalize importHit reg linked g i nm seen = r at hhit
+      obtain ⟨r1, r2⟩ := r
+      cases r1 with
+      | some x => simp only [orElse]; simp only at hhit; rw [← hhit]
+      | none =>
+        simp only [orElse_none, fgImports_inert reg linked nm g rest r2 hrest]
+        simp only at hhit
+        rw [← hhit]
+        symm
+        rw [List.findSome?_eq_none_iff]
+        intro x hx
+        simp [hrest x hx]
+
+theorem bindLexical_none (root : Mod) (nm : String) : ∀ (inner : List Stmt), (∀ n ∈ inner, declares n nm = none) →
+    bindLexical root inner nm = none
+  | [], _ => rfl
+  | n :: up, h => by
+    unfold bindLexical
+    rw [h n (List.mem_cons_self ..)]
+    exact bindLexical_none root nm up (fun x hx => h x (List.mem_cons_of_mem _ hx))
+
+/-- **Binding of a name with a foreign prefix**, when no enclosing statement declares a grouping
+whose name is literally the prefixed text and at most one import statement of the (sub)module
+carries the prefix. -/
+theorem findGrouping_foreign (reg : Registry) (linked : List Nat) (root : Mod) (inner : List Stmt) (name : String)
+    (fuel : Nat) (hinner : ∀ n ∈ inner, isModuleStmt n = false) (hb : isBare (localName root name) = false)
+    (hdecl : ∀ n ∈ inner ++ [root.stmt], declares n (localName root name) = none)
+    (huniq : (importsFor root (localName root name)).length ≤ 1)
+    (hf : bindFuel reg root inner ≤ fuel) :
+    (findGrouping reg linked fuel root (inner ++ [root.stmt]) name []).1 = bindGrouping reg linked root inner name := by
+  unfold bindFuel at hf
+  have hmul : (reg.mods.length + 2) * (width reg root + 3) =
+      (reg.mods.length + 1) * (width reg root + 3) + (width reg root + 3) := Nat.succ_mul _ _
+  obtain ⟨F, rfl⟩ : ∃ F, fuel = inner.length + (F + 1) + 1 := ⟨fuel - inner.length - 2, by omega⟩
+  rw [findGrouping.eq_2, trimLocalPrefix_eq, walk_inner reg linked root _ [] inner (F + 1) hinner,
+    bindLexical_none root _ inner (fun n hn => hdecl n (List.mem_append_left _ hn))]
+  simp only
+  unfold bindGrouping
+  simp only [hb, Bool.false_eq_true, if_false]
+  generalize localName root name = nm at hb hdecl huniq
+  rw [fgScope_cons]
+  have hd : List.find? (fun x => x.arg == nm) (root.stmt.all "grouping") = none := hdecl root.stmt (by simp)
+  simp only [hd]
+  have hnb : (!nm.contains ':') = false := by rw [contains_colon, hb]; rfl
+  simp only [hnb, Bool.and_false, Bool.false_eq_true, if_false, fgIncludes_nil]
+  have hv : ∀ s, viaOwner reg linked F root false nm s = (none, s) := by intro s; simp [viaOwner]
+  -- what the one matching import statement yields
+  have hS : ∀ i g, importMatches nm i = true → (reg.mods.length + 1) * (width reg root + 3) + 1 ≤ g →
+      (importHit reg linked g i nm []).1 =
+        (reg.findModule false i).bind fun x => bindTop reg linked x (afterPrefix ((i.argOf? "prefix").getD "") nm) := by
+    intro i g hm hg
+    rw [importHit_eq, hm]
+    simp only [if_true]
+    cases hx : reg.findModule false i with
+    | none => rfl
+    | some x =>
+      obtain ⟨g', rfl⟩ : ∃ g', g = g' + 1 := ⟨g - 1, by omega⟩
+      have hrb : isBare (afterPrefix ((i.argOf? "prefix").getD "") nm) = true := by
+        unfold importMatches at hm
+        simp only [Bool.and_eq_true] at hm
+        exact hm.2
+      simp only [Option.bind_some]
+      rw [findGrouping_bare reg linked _ hrb]
+      exact fgScope_top reg linked _ hrb (width reg root) (width_mods reg root) x
+        (width_mods reg root x (findModule_mem hx)) g' (by omega)
+  have hlen : (root.stmt.all "import").length ≤ width reg root :=
+    Nat.le_trans (List.length_filter_le _ _) (width_root reg root)
+  have key : (fgImports reg linked F (if isModuleStmt root.stmt && linked.contains root.seq then root.stmt.all "import" else []) nm []).1 =
+      if isModuleStmt root.stmt && linked.contains root.seq then
+        root.imports.findSome? fun i =>
+          if importMatches nm i then
+            (reg.findModule false i).bind fun x => bindTop reg linked x (afterPrefix ((i.argOf? "prefix").getD "") nm)
+          else none
+      else none := by
+    cases (isModuleStmt root.stmt && linked.contains root.seq) with
+    | false => simp only [Bool.false_eq_true, if_false]; rw [fgImports_nil]
+    | true =>
+      simp only [if_true]
+      exact imports_agree reg linked nm _ _ [] hS _ F (by omega) huniq
+  generalize fgImports reg linked F (if isModuleStmt root.stmt && linked.contains root.seq then root.stmt.all "import" else []) nm [] = r at key
+  obtain ⟨r1, r2⟩ := r
+  simp only at key
+  subst key
+  unfold importMatches
+  split
+  · next h =>
+    generalize List.findSome? _ root.imports = o
+    cases o with
+    | some x => rfl
+    | none => simp only [orElse_none, hv, fgScope_nil]
+  · next h => simp only [orElse_none, hv, fgScope_nil]
+
 end Goyang.Lemmas.Uses
